@@ -698,3 +698,11 @@ package distributed
 //@             (exists i int :: {ev_sess(string(buf), i)} 0 <= i && i < ev_nsess(string(buf)) && sm_eq(ev_sess(string(buf), i), s.sessionMetadatas.sessions[k])))
 //@   ensures forall k string :: {s.sessionMetadatas.sessions[k]} {k in s.sessionMetadatas.sessions} (k in s.sessionMetadatas.sessions <==> old(k in s.sessionMetadatas.sessions)) && s.sessionMetadatas.sessions[k] == old(s.sessionMetadatas.sessions[k])
 //@   modifies newobjs(api.StateBroadcastEvent), newobjs(api.SessionMetadatas), newobjs(api.SubscriptionList), newobjs(api.Subscription), newobjs(api.RetainedMessage), newobjs(packet.Publish), newobjs(packet.Header), newrows(*api.SessionMetadatas), newrows(*api.Subscription), newrows(*api.RetainedMessage), newrows(bytes), #treeIterates, #storeIterates
+
+// C09: a queued change is never evicted from the transmit queue by a later one (only full-state broadcasts supersede others)
+//@ func (simpleBroadcast).Invalidates(other memberlist.Broadcast) (r bool)
+//@   ensures !r
+//@   modifies nothing
+//@ func (simpleBroadcast).Message() (m []byte)
+//@   ensures m == b
+//@   modifies nothing
